@@ -21,6 +21,12 @@ impl Plugin for LinkConditionerPlugin {
 pub(super) struct LinkConditioner {
     rng: Rng,
     heap: BinaryHeap<TimedMessage>,
+
+    /// Number of inserted messages.
+    ///
+    /// Used to preserve the insertion order of messages with equal timestamps,
+    /// since [`BinaryHeap`] is not stable.
+    sequence: u64,
 }
 
 impl LinkConditioner {
@@ -53,9 +59,11 @@ impl LinkConditioner {
 
         self.heap.push(TimedMessage {
             timestamp,
+            sequence: self.sequence,
             channel_id,
             message,
         });
+        self.sequence = self.sequence.wrapping_add(1);
     }
 
     pub(super) fn pop(&mut self, now: Instant) -> Option<(u8, Bytes)> {
@@ -71,13 +79,17 @@ impl LinkConditioner {
 #[derive(Clone, Eq, PartialEq)]
 struct TimedMessage {
     timestamp: Instant,
+    sequence: u64,
     channel_id: u8,
     message: Bytes,
 }
 
 impl Ord for TimedMessage {
     fn cmp(&self, other: &TimedMessage) -> Ordering {
-        other.timestamp.cmp(&self.timestamp)
+        other
+            .timestamp
+            .cmp(&self.timestamp)
+            .then_with(|| other.sequence.cmp(&self.sequence))
     }
 }
 
